@@ -460,7 +460,7 @@ class PlayerPlaceholder(BasePlaceholder):
 
     def subscribe(self):
         """Subscribe to player changes."""
-        return self._machine.events.wait_for_any_event(["player_turn_ended", "player_turn_started"])
+        return self._machine.events.wait_for_any_event(["player_turn_ended", "player_turn_started", "game_ended"])
 
     def subscribe_attribute(self, item):
         """Subscribe player variable changes."""
